@@ -195,8 +195,8 @@ def st_header_full():
 def st_tip906_transition(proj=False):
     """apply_tip_906_for_next_state touches only next_state.coins: proved in unit `coins` over that field (rule R21), assumed elsewhere over the whole state"""
     o, f = ("old(coins)", "final(coins)") if proj else ("old(next_state).coins", "final(next_state).coins")
-    d = dict(requires=[C("wf", f"{o}.wf()"), C("fresh", f"{o}@.counts == IMap::<Address, nat>::empty()"),
-                       C("only_coins", f"{o}.only_coins()", note="the pre-activation coin tree holds coin entries only (the `expect(\"pre-tip906 coin tree has non-cdh elements?!\")` panics otherwise)")],
+    d = dict(requires=[C("wf", f"{o}.wf()", note="tree invariant: entries decode, and every non-empty entry sits under a coin key or a count key (raw_closed) - kept by every CoinMapping operation, proved in unit coins"),
+                       C("fresh", f"{o}@.counts == IMap::<Address, nat>::empty()", note="no count entries before activation; with wf this gives 'coin entries only' (lemma_only_coins), so the `expect(\"pre-tip906 coin tree has non-cdh elements?!\")` cannot fire")],
              ensures=[C("counts", f"{f}.wf() && {f}@.coins == {o}@.coins && counts_ok({f}@)", "C20",
                         note="one-off initialisation at TIP-906 activation: afterwards every covenant hash's count equals its number of unspent coins")])
     if not proj:
@@ -238,8 +238,7 @@ def st_seal_full():
                          C("sinv", "state_inv(res.0) && pools_ok(res.0.pools@) && builtins_live(res.0)", "C16", "C20", note="sealing preserves the state invariants")])
 
 def st_next_unsealed():
-    return dict(requires=[C("chain", "chain_ok(self.0) && self.0.height.0 < u64::MAX"), C("wf", "state_inv(self.0)"),
-                          C("clean", "!spec_tip906(self.0) ==> self.0.coins.only_coins()", note="tree invariant assumed: before TIP-906 activates the coin tree holds coin entries only")],
+    return dict(requires=[C("chain", "chain_ok(self.0) && self.0.height.0 < u64::MAX"), C("wf", "state_inv(self.0)")],
                 ensures=[C("det", "res == spec_next(*self)", det=True),
                          C("next", "next_rel(self.0, res)", "C07", "C13"),
                          C("chain", "chain_ok(res)", "C07"),
@@ -263,8 +262,9 @@ def ap_batch_impl():
                          C("errkind", "res is Err ==> !(res->Err_0 is WrongHeader)", "C06", char=True)])
 
 def cm_new_abs():
-    return dict(ensures=[C("root", "spec_root_coins(res@) == HashVal(novasmt::root_of(inner@)) && res.wf()", "C07", "C08"),
-                         C("empty", "novasmt::root_of(inner@)@ == Seq::new(32, |i: int| 0u8) ==> res@.coins == IMap::<CoinID, CoinDataHeight>::empty() && res@.counts == IMap::<Address, nat>::empty()", "C07", note="A-SMT: the all-zero root is the empty tree's")])
+    return dict(ensures=[C("root", "spec_root_coins(res@) == HashVal(novasmt::root_of(inner@))", "C07", "C08"),
+                         C("empty", "novasmt::root_of(inner@)@ == Seq::new(32, |i: int| 0u8) ==> res@.coins == IMap::<CoinID, CoinDataHeight>::empty() && res@.counts == IMap::<Address, nat>::empty() && res.wf()", "C07", "C20",
+                           note="A-SMT: the all-zero root is the empty tree's; the empty tree is well-formed (proved in unit coins). A tree fetched from the store by a non-zero root is NOT claimed well-formed")])
 def smt_new():
     return dict(ensures=[C("root", "spec_root_smt(res@) == HashVal(novasmt::root_of(tree@))", "C07", "C08"),
                          C("empty", "novasmt::root_of(tree@)@ == Seq::new(32, |i: int| 0u8) ==> res@ == Map::<K, V>::empty()", "C07", note="A-SMT: the all-zero root is the empty tree's")])
